@@ -19,6 +19,7 @@ import (
 	"github.com/crate-crypto/go-ipa/zzverif/vsched"
 	"verif.local/engine/core"
 	"verif.local/engine/explore"
+	"verif.local/engine/ref"
 )
 
 // C12 — a shared configuration can be used concurrently without interference.
@@ -71,6 +72,16 @@ func c12Ops() []c12op {
 			a := t.ChallengeScalar([]byte("a"))
 			b := t.ChallengeScalar([]byte("b"))
 			return frToBig(a).Text(16) + frToBig(b).Text(16)
+		}},
+		{"Transcript with a label slice shared by all callers (spare capacity)", false, func(c *ipa.IPAConfig, seed int64, slot int) string {
+			t := common.NewTranscript("shared-label")
+			s := frFromBig(bi(int64(40 + slot)))
+			m := []byte{byte(slot), 0xAA, 0xBB}
+			t.AppendMessage(m, c12SharedLabel)
+			t.AppendScalar(&s, c12SharedLabel)
+			t.DomainSep(c12SharedLabel)
+			a := t.ChallengeScalar(c12SharedLabel)
+			return frToBig(a).Text(16)
 		}},
 		{"Element.SetBytes / Bytes / MapToScalarField", false, func(c *ipa.IPAConfig, seed int64, slot int) string {
 			src := c.SRS[20+slot].Bytes()
@@ -170,6 +181,9 @@ func c12Ops() []c12op {
 	}
 }
 
+// c12SharedLabel: one label value, built at run time with spare capacity, used read-only by every caller.
+var c12SharedLabel = append(make([]byte, 0, 64), "lbl"...)
+
 type c12fix struct {
 	a     []fr.Element
 	cm    banderwagon.Element
@@ -225,6 +239,29 @@ func c12ProcessStart(r *core.Result) {
 		}) {
 			return
 		}
+		srs := make([][]banderwagon.Element, 4)
+		if timed(r, "c12.panic", "ipa.GenerateRandomPoints", "4 concurrent first derivations of the first 256 generators in a fresh process", func() {
+			var wg sync.WaitGroup
+			for i := range srs {
+				wg.Add(1)
+				go func(i int) { defer wg.Done(); srs[i] = ipa.GenerateRandomPoints(256) }(i)
+			}
+			wg.Wait()
+		}) {
+			alone := ipa.GenerateRandomPoints(256)
+			for i := range srs {
+				r.Evals++
+				same := len(srs[i]) == 256 && len(alone) == 256
+				for k := 0; same && k < 256; k++ {
+					if srs[i][k].Bytes() != alone[k].Bytes() || srs[i][k].Bytes() != ref.Compress(ref.SRS()[k]) {
+						same = false
+					}
+				}
+				if !same {
+					vio(r, "c12.interference", "ipa.GenerateRandomPoints", fmt.Sprintf("4 concurrent first derivations in a fresh process (caller %d)", i), "the first 256 generators of the reference CRS", "different points")
+				}
+			}
+		}
 		want := core.Fingerprint(ipa.NewPrecomputedWeights())
 		for i, pw := range pws {
 			r.Evals++
@@ -266,6 +303,40 @@ func c12Free(r *core.Result, seed int64, reps int) {
 		for slot := 0; slot < 2; slot++ {
 			if first[i][slot] != alone[i][slot] {
 				vio(r, "c12.interference", op.name, fmt.Sprintf("first use of a fresh configuration: all %d operations x 2 argument slots concurrently (free-running, GOMAXPROCS=%s)", len(ops), os.Getenv("GOMAXPROCS")), "same output as when executed alone: "+clipS(alone[i][slot]), clipS(first[i][slot]))
+			}
+		}
+	}
+	// Phase B — bursts: many more callers than CPUs inside the same operation at once (process-wide bounded
+	// resources, if any, are exhausted here)
+	for i, op := range ops {
+		burst := 0
+		switch {
+		case strings.HasPrefix(op.name, "MultiScalar"):
+			burst = 96
+		case strings.HasPrefix(op.name, "Commit"), strings.HasPrefix(op.name, "BatchNormalize"), strings.HasPrefix(op.name, "Transcript: append"):
+			burst = 64
+		case strings.HasPrefix(op.name, "CheckIPAProof"):
+			burst = 40
+		}
+		if burst == 0 {
+			continue
+		}
+		outs := make([]string, burst)
+		if !timed(r, "c12.panic", op.name, fmt.Sprintf("%d concurrent callers of %s (free-running)", burst, op.name), func() {
+			var wg sync.WaitGroup
+			for k := 0; k < burst; k++ {
+				wg.Add(1)
+				go func(k int) { defer wg.Done(); outs[k] = op.f(c, seed, k%2) }(k)
+			}
+			wg.Wait()
+		}) {
+			continue
+		}
+		r.Evals++
+		for k := range outs {
+			if outs[k] != alone[i][k%2] {
+				vio(r, "c12.interference", op.name, fmt.Sprintf("%d concurrent callers (free-running, GOMAXPROCS=%s)", burst, os.Getenv("GOMAXPROCS")), "same output as when executed alone: "+clipS(alone[i][k%2]), clipS(outs[k]))
+				break
 			}
 		}
 	}
@@ -314,7 +385,7 @@ func clipS(s string) string {
 func init() {
 	core.Register(&core.Check{
 		ID: "C12", Level: "model_checking",
-		Rule:        "harnesses of 2-3 goroutines sharing one IPAConfig, the package tables and the big.Int pool, operations chosen to collide on the shared objects: (1) ALL 2-subsets (with repetition) and a family of 3-subsets of 8 short operations (fr decoders/printers through the pool, transcripts, element codec): unbounded DPOR over every interleaving and every sync.Pool answer, pooled objects poisoned on Put; (2) pairs of a heavy call (NewPrecomputedWeights, Commit, MultiScalar, BatchNormalize, CheckIPAProof, CreateIPAProof in and out of the domain, CreateMultiProof+Check with 2, 5 and 17 openings, also under NumCPU 3,4,16) with a short one and heavy-heavy pairs: DPOR under a time cap (cap reported); oracle: every call's output equals its output when executed alone, no deadlock state, shared fingerprint unchanged; (3) race pass: all pairs of the same bodies free-running in the -race build under GOMAXPROCS 1,2,4,16 (first-use phase on a fresh configuration, then every pair; 3 repetitions in thorough) — any report is a violation; a state is a decision point of the explored schedule tree; non-trivial = executions with at least one scheduling point where two goroutines address the same shim object",
+		Rule:        "harnesses of 2-3 goroutines sharing one IPAConfig, the package tables and the big.Int pool, operations chosen to collide on the shared objects: (1) ALL 2-subsets (with repetition) and a family of 3-subsets of 9 short operations (fr decoders/printers through the pool, transcripts, element codec): unbounded DPOR over every interleaving and every sync.Pool answer, pooled objects poisoned on Put; (2) pairs of a heavy call (NewPrecomputedWeights, Commit, MultiScalar, BatchNormalize, CheckIPAProof, CreateIPAProof in and out of the domain, CreateMultiProof+Check with 2, 5 and 17 openings, also under NumCPU 3,4,16) with a short one and heavy-heavy pairs: DPOR under a time cap (cap reported); oracle: every call's output equals its output when executed alone, no deadlock state, shared fingerprint unchanged; (3) race pass: all pairs of the same bodies free-running in the -race build under GOMAXPROCS 1,2,4,16 (first-use phase on a fresh configuration, then every pair; 3 repetitions in thorough) — any report is a violation; a state is a decision point of the explored schedule tree; non-trivial = executions with at least one scheduling point where two goroutines address the same shim object",
 		Assume:      []string{"scheduling points = visible synchronisation operations; sequential consistency; data-race freedom is discharged by the separate free-running -race pass (a cooperative scheduler would blind the detector)", "heavy pairs are explored under a wall-clock cap, reported in caps_hit"},
 		UnitTimeout: 20 * time.Minute,
 		Units:       c12Units,
@@ -397,6 +468,23 @@ func c12Units(ctx *core.Ctx) []core.Unit {
 		schedCPU = cpu
 		us = append(us, sched(fmt.Sprintf("NumCPU=%d: %s", cpu, ops[last].name), []int{last}, explore.Options{DataBudget: 0, MaxExecs: 100000, Deadline: c12Deadline(ctx)}, "dpor"))
 		us = append(us, sched(fmt.Sprintf("NumCPU=%d: %s || %s", cpu, ops[last].name, ops[short[5]].name), []int{last, short[5]}, explore.Options{DataBudget: 0, MaxExecs: 100000, Deadline: c12Deadline(ctx)}, "dpor"))
+	}
+	// several MSMs in flight at once under tiny CPU counts (bounded process-wide resources would be exhausted)
+	msmIdx := -1
+	for _, h := range heavy {
+		if strings.HasPrefix(ops[h].name, "MultiScalar") {
+			msmIdx = h
+		}
+	}
+	if msmIdx >= 0 {
+		for _, cfg := range [][2]int{{1, 2}, {1, 3}, {2, 4}} {
+			schedCPU = cfg[0]
+			idx := make([]int, cfg[1])
+			for i := range idx {
+				idx[i] = msmIdx
+			}
+			us = append(us, sched(fmt.Sprintf("NumCPU=%d: %d x %s at once", cfg[0], cfg[1], ops[msmIdx].name), idx, explore.Options{DataBudget: 0, MaxExecs: 100000, Deadline: c12Deadline(ctx)}, "dpor"))
+		}
 	}
 	schedCPU = 2
 	us = append(us, core.Unit{Name: "free-running pairs (default build)", Run: func(ctx *core.Ctx, r *core.Result) {
